@@ -205,7 +205,7 @@ def check_named(case):
     req(lb1 - TOL <= v1 <= ub1 + TOL, f"exclusion value with unit weights {v1:.8f} outside certified [{lb1:.8f}, {ub1:.8f}]", "value")
     vu, _ = _call(inputs, None)
     if positive is True:
-        req(ub1 <= 1e-6, f"harness: constructed antidistinguishable set has certified value {ub1}", "harness")
+        req(ub1 <= 1e-6, f"constructed antidistinguishable set ({case['named']}) has certified exclusion value {ub1:.2e} > 0", "constructed-set-not-antidistinguishable")
         req(abs(vu) <= 1e-6, f"antidistinguishable set ({case['named']}): exclusion value {vu:.2e} != 0", "positive-not-zero")
     req(lb1 / n - TOL <= vu <= ub1 / n + TOL, f"exclusion value with omitted priors {vu:.8f} outside certified [{lb1 / n:.8f}, {ub1 / n:.8f}]", "value")
     if positive is False and lb1 / n >= 1e-4:
